@@ -108,13 +108,21 @@ func (w *tlsWorld) startServerWith(t *testing.T, rc *RunCtx, caCert []byte, nf s
 	c := NewCluster(t, rc, s, ClusterCfg{IDs: []uint64{1, 2, 3}, Perms: perms, NameFmt: nf, AdminIPs: adminIPs, Specs: []WalletSpec{w1, w2, {Name: "Wallet 3", Kind: "distributed"}}})
 	// Peer names as in the repository's test certificates.
 	n := c.Nodes[0]
-	port := freePort()
-	_, err := grpcapi.New(context.Background(),
-		grpcapi.WithSigner(n.Inst.Signer), grpcapi.WithLister(n.Inst.Lister), grpcapi.WithProcess(n.Inst.Process),
-		grpcapi.WithAccountManager(n.Inst.AcctMgr), grpcapi.WithWalletManager(n.Inst.WalletMgr), grpcapi.WithPeers(n.Peers),
-		grpcapi.WithName("signer-test01"), grpcapi.WithID(1),
-		grpcapi.WithServerCert(resources.SignerTest01Crt), grpcapi.WithServerKey(resources.SignerTest01Key), grpcapi.WithCACert(caCert),
-		grpcapi.WithListenAddress(fmt.Sprintf("127.0.0.1:%d", port)))
+	var port int
+	var err error
+	// Another process may take the port between its selection and the server's own listen: try again.
+	for attempt := 0; attempt < 8; attempt++ {
+		port = freePort()
+		_, err = grpcapi.New(context.Background(),
+			grpcapi.WithSigner(n.Inst.Signer), grpcapi.WithLister(n.Inst.Lister), grpcapi.WithProcess(n.Inst.Process),
+			grpcapi.WithAccountManager(n.Inst.AcctMgr), grpcapi.WithWalletManager(n.Inst.WalletMgr), grpcapi.WithPeers(n.Peers),
+			grpcapi.WithName("signer-test01"), grpcapi.WithID(1),
+			grpcapi.WithServerCert(resources.SignerTest01Crt), grpcapi.WithServerKey(resources.SignerTest01Key), grpcapi.WithCACert(caCert),
+			grpcapi.WithListenAddress(fmt.Sprintf("127.0.0.1:%d", port)))
+		if err == nil {
+			break
+		}
+	}
 	if err != nil {
 		t.Fatalf("grpc api: %v", err)
 	}
